@@ -154,16 +154,23 @@ PROPS["C11"] = dict(
     rule=("reply sequences of 2..6 replies (success / error / continuing; text lengths 6..2000 so that some force buffer "
           "growth and reallocation) obtained through a chain or a proxy #[zlink(more)] stream while EVERY earlier item is "
           "kept alive; group 'same': the buffer is pre-grown so the whole burst arrives in one read; group 'separate': "
-          "later replies arrive in later reads; after each next() every held item is re-read and compared with an owned "
+          "later replies arrive in later reads; group 'available': the whole burst is queued in the transport before the first "
+          "item is requested but the receive buffer is fresh, so zlink takes it in buffer-sized pieces (frame ends never on a "
+          "256-byte boundary except the last); every third case contains a reply that surfaces as a connection-level failure; "
+          "the native layer runs with a hostile allocator (every realloc moves, freed blocks are overwritten with 0xDD); after "
+          "each next(), after a failure and after the end of the stream every held item is re-read and compared with an owned "
           "copy; cases are classified by what was observed (did the transport deliver bytes while items were held), not "
           "by intention; distinct = hash of (sizes, kinds, delivery, seed)"),
     oracle=("native: held text == copy taken when yielded; ASan: no heap-use-after-free report; Miri: no Stacked-Borrows / "
-            "use-after-free report. Same-read delivery must be clean under all three; separate-read delivery is the "
-            "recorded known finding"),
+            "use-after-free report. Same-read and available-burst delivery must be clean under all three; separate-read "
+            "delivery is the recorded known finding"),
     assumptions=["Miri's Stacked Borrows model is the aliasing model", "a sanitizer report is attributed by its first frame under /repo"],
     floor_quick=4_000, floor_thorough=100_000,
     steps=[
         dict(layer="native", monitor="c11", tag="same", extra=["--group", "same"], shards_quick=2, shards_thorough=8),
+        dict(layer="native", monitor="c11", tag="available", extra=["--group", "available"], shards_quick=2, shards_thorough=8),
+        dict(layer="miri", monitor="c11", tag="available", extra=["--group", "available"], shards_quick=4, shards_thorough=16),
+        dict(layer="asan", monitor="c11", tag="available", extra=["--group", "available"], shards_quick=2, shards_thorough=8),
         dict(layer="native", monitor="c11", tag="separate", extra=["--group", "separate"], shards_quick=2, shards_thorough=8),
         dict(layer="miri", monitor="c11", tag="same", extra=["--group", "same"], shards_quick=6, shards_thorough=16),
         dict(layer="miri", monitor="c11", tag="separate", extra=["--group", "separate"], shards_quick=1, shards_thorough=2, expect_dies=True),
